@@ -54,6 +54,16 @@ Proof.
   rewrite (IH f' s' (l, e) E) by lia. exact H.
 Qed.
 
+(* the fuel needed is exactly one call per object plus the call that reports exhaustion *)
+Lemma drain_fuel_length : forall f s l e, drain f s = Some (l, e) -> drain (S (length l)) s = Some (l, e).
+Proof.
+  induction f as [|f IH]; intros s l e H; [discriminate|]. cbn [drain] in H.
+  destruct (next s) as [[s' [|]]|] eqn:E; try discriminate.
+  - destruct (drain f s') as [[l' e']|] eqn:D; [|discriminate]. inversion H; subst.
+    apply IH in D. cbn [drain length] in *. rewrite E, D. reflexivity.
+  - inversion H; subst. cbn [drain length]. rewrite E. reflexivity.
+Qed.
+
 Section Sorted.
 Variable lt : Obj -> Obj -> Prop.
 Variable F : Obj -> Prop.
@@ -185,3 +195,14 @@ End Enum.
 Arguments drain {St Obj}.
 Arguments after {St}.
 Arguments exhausted {St}.
+
+(* an enumeration statement with some fuel holds with the exact fuel: one call per object and
+   one for the report of exhaustion *)
+Lemma drain_exact_fuel : forall (St Obj : Type) (next : St -> option (St * bool)) (value : St -> Obj)
+  (s0 : St) (Q : list Obj -> St -> Prop),
+  (exists fuel l e, drain next value fuel s0 = Some (l, e) /\ Q l e) ->
+  exists l e, drain next value (S (length l)) s0 = Some (l, e) /\ Q l e.
+Proof.
+  intros St Obj next value s0 Q (fuel & l & e & H & HQ). exists l, e. split; auto.
+  eapply drain_fuel_length; eauto.
+Qed.
